@@ -7,8 +7,8 @@ TRUSTED = ["binascii.crc_hqx is modelled by the table-driven CRC of CPython's bi
            "and directly on random buffers)"]
 ASSUMPTIONS = ["hex strings are Python str; a non-ASCII or non-hex str is only required to raise",
                "the implementation is called in-process with PYTHONPATH=/repo/src"]
-RULE = ("hex spellings of byte strings: the regression corpus, every string of length 0..1, 4096 random (thorough: all 65536) "
-        "of length 2, every single-bit flip of the signed frames of tests/test_api_packet_crc_signing.py shapes, random strings "
+RULE = ("hex spellings of byte strings: the regression corpus, every string of length 0..2 (all 65 793: every 16-bit value of the first CRC occurs), "
+        " every single-bit flip of the signed frames of tests/test_api_packet_crc_signing.py shapes, random strings "
         "up to 4 KiB in lower/upper/mixed case, and a malformed stream (odd length, non-hex, blanks, non-ASCII); "
         "non-trivial = distinct well-formed hex of at least one byte")
 REQUIREMENT = ("sign(p) = p ++ hex(le16(c) ++ le16(crc(le16(c) ++ 0x30*32))) with c = crc(unhex p), CRC-16/CCITT poly 0x1021 "
@@ -27,8 +27,7 @@ def view(text): return text if text.startswith("ok ") else "raised"
 def cases(tier, rnd):
     cs = ["", "fef0", "FEF0", "fef", "zz"]                       # corpus
     cs += ["%02x" % a for a in range(256)]
-    cs += ["%02x%02x" % (a, b) for a in range(256) for b in range(256)] if tier == "thorough" else \
-          ["%02x%02x" % (rnd.randrange(256), rnd.randrange(256)) for _ in range(4096)]
+    cs += ["%02x%02x" % (a, b) for a in range(256) for b in range(256)]       # every 2-byte string: every value of the first CRC occurs
     for f in FRAMES:
         b = bytes.fromhex(f)
         flips = [(i, j) for i in range(len(b)) for j in range(8)]
@@ -60,7 +59,7 @@ def run(tier, rnd, out):
     got = lib.run_model([lib.req("crc", i, b) for b, i in zip(bufs, inits)])
     want = [str(binascii.crc_hqx(b, i)) for b, i in zip(bufs, inits)]
     lib.differential(out, "crc_hqx", list(zip([b.hex() for b in bufs], inits)), want, got, None, lambda c: "crc_hqx(%s.., %d)" % (c[0][:16], c[1]))
-    out.exhaustive = tier == "thorough"
+    out.exhaustive = True
     out.notes.append("thorough enumerates all 65 793 byte strings of length 0..2 and every single-bit flip of three real frames")
 
 def replay(rp, out): run_cases(rp.get("stream", "sign"), [rp["input"]], out)
